@@ -430,6 +430,20 @@ theorem holdsTrace_model (addr : Nat → Nat) (c : Ctx) (ms : List Msg) :
       obtain ⟨m, hm, hh, _, _⟩ := follower_trace_sound addr c ms _ pos hmem
       simp [traceAccepted, hf, hm, hh]
 
+/-- after `MarkInactiveMembers`, a member other than the receiver is operating iff it was operating and
+    sent a message in the previous phase: silent members are excluded before the accusers snapshot. -/
+theorem isOperating_markInactive (g : Group) (self idx : UInt8) (active : List Nat) (hne : idx ≠ self) :
+    (markInactive g self active).isOperating idx = true ↔
+      g.isOperating idx = true ∧ idx.toNat ∈ active := by
+  simp [markInactive, Group.isOperating, hne]
+  constructor
+  · rintro ⟨⟨h1, h2, h3⟩, h4⟩
+    rcases h3 with h3 | h3
+    · exact absurd h1 h3
+    · exact ⟨⟨⟨h1, h2⟩, h4⟩, h3⟩
+  · rintro ⟨⟨⟨h1, h2⟩, h4⟩, h5⟩
+    exact ⟨⟨h1, h2, Or.inr h5⟩, h4⟩
+
 /-! ## Non-vacuity and monitor sanity -/
 
 def exCtx : Ctx :=
